@@ -275,6 +275,12 @@ func runC01(ctx *Ctx) {
 		return
 	}
 	t, rs, w, comma, tags := genIngestSpec(ctx.R, ctx.Thorough())
+	if ctx.Idx%6 == 5 && cliSafe(t) {
+		// the same table through `wrgl commit` + `wrgl export`
+		in, res := c01CLI(t)
+		ctx.Emit("export", in, res, len(t.Rows) > 1, append(tags, "cli")...)
+		return
+	}
 	in, res := doIngest(t, rs, w, comma, false)
 	ctx.Emit("ingest", in, res, ingestNontrivial(in, res), tags...)
 }
@@ -293,6 +299,11 @@ func corpusC01(ctx *Ctx, op string, raw json.RawMessage) {
 		panic(err)
 	}
 	if in.Spec == nil {
+		return
+	}
+	if op == "export" {
+		in2, res := c01CLI(in.Spec)
+		ctx.Emit("export", in2, res, true, "corpus", "cli")
 		return
 	}
 	var comma rune
